@@ -3,6 +3,7 @@ package checks
 import (
 	"encoding/json"
 	"fmt"
+	"hash"
 
 	ike "github.com/free5gc/ike"
 	"github.com/free5gc/ike/message"
@@ -146,6 +147,20 @@ func c17OpsKS(ks, other univ.KeySet, thorough bool) []c17Op {
 			return ref.ProtectRaw(ks.Suite, ske, ska, h, 200, append([]byte{0, 0x80, 0, 8, 1, 2, 3, 4, 9, 9, 9, 9, 9, 9, 9}, 7), univ.Pat(16, 53), -1)
 		}
 	}
+	// a genuine message from a peer that pads to the maximum (Pad Length 255) or by several blocks
+	mkPad := func(mi int, senderI bool, padLen, ivseed int) []byte {
+		ske, ska := ks.DirKeys(senderI)
+		_, inner, _ := ref.EncodeChain(msgs[mi].P, ref.Lib{})
+		pad := (16 - (len(inner)+1)%16) % 16
+		for pad+16 <= padLen {
+			pad += 16
+		}
+		b, err := ref.Protect(ks.Suite, ske, ska, msgs[mi], ref.Lib{}, univ.Pat(16, ivseed), univ.Pat(pad, ivseed+1))
+		if err != nil {
+			panic(err)
+		}
+		return b
+	}
 	gI := mk(ks, 0, true, 10)  // from initiator, to be unprotected as responder
 	gR := mk(ks, 1, false, 20) // from responder, to be unprotected as initiator
 	flip := func(b []byte, pos int) []byte { x := append([]byte(nil), b...); x[pos] ^= 0x04; return x }
@@ -163,6 +178,17 @@ func c17OpsKS(ks, other univ.KeySet, thorough bool) []c17Op {
 		unprotect("unprotect(truncated)", gI[:len(gI)-7], false, false), unprotect("unprotect(short sk body)", append(append([]byte(nil), gI[:30]...), 0, 9, 1, 2, 3, 4, 5), false, false),
 		unprotect("unprotect(reflected)", gI, true, false), unprotect("unprotect(cross-key)", mk(other, 0, true, 10), false, false),
 		child(16, 1, univ.Pat(32, 5)), child(32, -1, nil), child(16, 1, univ.Pat(32, 6)),
+		unprotect("unprotect(genuine I->R, pad length 255)", mkPad(0, true, 255, 60), false, false), unprotect("unprotect(genuine R->I, pad length 40..55)", mkPad(1, false, 55, 61), true, true),
+		c17Op{"caller computes a checksum of its own on the exported Integ_i and Integ_r objects", func(sa *security.IKESAKey) string {
+			for _, h := range []hash.Hash{sa.Integ_i, sa.Integ_r} {
+				if h != nil {
+					h.Reset()
+					h.Write(univ.Pat(37, 5))
+					h.Sum(nil)
+				}
+			}
+			return "ok"
+		}},
 		c17Op{"caller computes prf(SK_d, x) on the exported Prf_d object", func(sa *security.IKESAKey) string {
 			if sa.Prf_d != nil {
 				sa.Prf_d.Reset()
